@@ -492,6 +492,11 @@ func init() {
 			}
 			return []rt.Phase{
 				{Name: "lockstep", N: 16, Run: func(i int, r *rt.Rec) { c19Lockstep(r, gen.Rng(seed, "c19a", i), n/16, steps) }},
+				{Name: "store-histories-memoized", N: 16, Run: func(i int, r *rt.Rec) {
+					// the C01 model driven through the wrapper: create / drop / re-create graphs,
+					// add / remove batches, Exist and full listing after every step
+					c01Histories(r, gen.Rng(seed, "c19h", i), n/32+1, 40, func(s storage.Store) storage.Store { return memoization.New(s) })
+				}},
 				{Name: "interleavings", N: 6, Exhaustive: tier == "thorough", Run: func(i int, r *rt.Rec) { c19Interleavings(r, i, wrr, gen.Rng(seed, "c19b", i)) }},
 				{Name: "stress-race", N: 16, Race: true, Run: func(i int, r *rt.Rec) { c19Stress(r, gen.Rng(seed, "c19c", i), st/16) }},
 			}
